@@ -429,6 +429,9 @@ type model struct {
 	grammar   *jObj
 	prods     []*modelProd
 	prodObjs  []*jObj
+	// imports requested through the template function imp("path") while rendering the current
+	// template: path => alias (the real function hands out _i<n>; the alias only has to be stable)
+	imports map[string]string
 }
 
 func buildModel(p *Program, ts *TemplateSet) (*model, error) {
@@ -646,7 +649,21 @@ func (m *model) abstractValue(info *types.Info, name string, e ast.Expr, flags m
 			case ps.Len() == 0 && isSliceOf(r, "lexergen/mode", "Mode"):
 				return &jFunc{Name: name, Call: func(a []any) (any, error) { return m.modes, nil }}, nil
 			case ps.Len() == 1 && isString(ps.At(0).Type()) && isString(r):
-				return &jFunc{Name: name, Call: func(a []any) (any, error) { return jGoText{Text: "_imp", Cat: "ident"}, nil }}, nil
+				return &jFunc{Name: name, Call: func(a []any) (any, error) {
+					path, ok := a[0].(string)
+					if len(a) != 1 || !ok {
+						return jGoText{Text: "_imp", Cat: "ident"}, nil
+					}
+					if m.imports == nil {
+						m.imports = map[string]string{}
+					}
+					alias, ok := m.imports[path]
+					if !ok {
+						alias = fmt.Sprintf("_i%d", len(m.imports))
+						m.imports[path] = alias
+					}
+					return jGoText{Text: alias, Cat: "ident"}, nil
+				}}, nil
 			}
 		}
 	}
@@ -893,10 +910,32 @@ func instantiate(p *Program, ts *TemplateSet, flags map[string]bool) (*TmplInsta
 			}
 			env.vars[n] = v
 		}
+		m.imports = nil
+		nHoles, nRegions := len(ti.Holes), len(ti.Regions)
 		r := &renderer{ti: ti, tmpl: u.Name, fc: fc, prodIdx: -1}
 		r.buf.WriteString("package tmpl\n\n")
 		if err := r.nodes(u.Tree, env); err != nil {
 			return nil, fmt.Errorf("template %s: %v", u.Name, err)
+		}
+		if len(m.imports) > 0 {
+			// the template asked for imports (imp("path")): render again behind the import block,
+			// as the real render function prepends it (aliases are already assigned, so the second
+			// pass renders the same text)
+			ti.Holes, ti.Regions = ti.Holes[:nHoles], ti.Regions[:nRegions]
+			var paths []string
+			for pth := range m.imports {
+				paths = append(paths, pth)
+			}
+			sort.Strings(paths)
+			r = &renderer{ti: ti, tmpl: u.Name, fc: fc, prodIdx: -1}
+			r.buf.WriteString("package tmpl\n\nimport (\n")
+			for _, pth := range paths {
+				fmt.Fprintf(&r.buf, "\t%s %q\n", m.imports[pth], pth)
+			}
+			r.buf.WriteString(")\n\n")
+			if err := r.nodes(u.Tree, env); err != nil {
+				return nil, fmt.Errorf("template %s: %v", u.Name, err)
+			}
 		}
 		if err := addFile(u.Name, "tmpl/"+u.Name+".go", r.buf.String()); err != nil {
 			return nil, err
